@@ -6,9 +6,15 @@ import (
 	"math/big"
 	"testing"
 
+	stdelliptic "crypto/elliptic"
+
 	"github.com/wollac/iota-crypto-demo/pkg/slip10"
 	"github.com/wollac/iota-crypto-demo/pkg/slip10/elliptic/internal/btccurve"
 )
+
+// vToy (white box, wb_test.go + overlay shim in internal/btccurve): the generic curve type with toy parameters.
+// Without it the toy shift events are not produced and only the real-size legs run.
+var vToy func(p, n, b, gx, gy int64) stdelliptic.Curve
 
 var toyParams = map[int][5]int64{
 	13: {13, 7, 7, 7, 5}, 43: {43, 31, 7, 2, 12}, 61: {61, 61, 7, 2, 25}, 67: {67, 79, 7, 2, 22},
@@ -27,9 +33,9 @@ func okOf(err error) (bool, string) {
 
 func curveByName(n string) Curve {
 	if n == "secp256k1" {
-		return secp256k1.Curve
+		return Curve{btccurve.Secp256k1()}
 	}
-	return nist256p1.Curve
+	return Curve{stdelliptic.P256()}
 }
 
 func slipCurve(n string) slip10.Curve {
@@ -43,7 +49,7 @@ func runF(op string, in M) (M, M) {
 	switch op {
 	case "shift.s":
 		t := toyParams[vIntOf(in["p"])]
-		c := btccurve.VerifToyCurve(t[0], t[1], t[2], t[3], t[4])
+		c := vToy(t[0], t[1], t[2], t[3], t[4])
 		k := big.NewInt(int64(vIntOf(in["k"])))
 		d := vBytes(in["d"])
 		priv := &PrivateKey{K: k, Curve: c}
@@ -144,6 +150,9 @@ func TestVerifDriver(t *testing.T) {
 	rec := vOpen()
 	defer rec.close()
 	emit := func(op string, in M) {
+		if op == "shift.s" && vToy == nil {
+			return
+		}
 		in = vNorm(in)
 		out, cert := runF(op, in)
 		rec.i++
